@@ -488,10 +488,11 @@ Qed.
 Lemma rel_state : forall cap pre r cs, rel addr ANil cap r (lift cs) ->
   rel addr ANil cap (fold_left ev_step pre r) (lift (carriers_rev_aux cs pre)).
 Proof.
-  intros cap pre. induction pre as [| [cid p | cid] pre IH]; intros r cs R.
+  intros cap pre. induction pre as [| [cid p | cid | k] pre IH]; intros r cs R.
   - exact R.
   - cbn [fold_left ev_step carriers_rev_aux]. apply IH. unfold carrier_step.
     change (lift ((cid, p) :: cs)) with ((cid, AStr (sanitise p)) :: lift cs). apply rel_set. exact R.
+  - cbn [fold_left ev_step carriers_rev_aux]. apply IH. exact R.
   - cbn [fold_left ev_step carriers_rev_aux]. apply IH. exact R.
 Qed.
 
@@ -505,11 +506,12 @@ Qed.
 Lemma attributions_spec_gen : forall cap evs r cs, rel addr ANil cap r (lift cs) ->
   attributions accept r evs = spec_attributions cap cs evs.
 Proof.
-  intros cap evs. induction evs as [| [cid p | cid] evs IH]; intros r cs R.
+  intros cap evs. induction evs as [| [cid p | cid | k] evs IH]; intros r cs R.
   - reflexivity.
   - cbn [attributions spec_attributions]. apply IH. unfold carrier_step.
     change (lift ((cid, p) :: cs)) with ((cid, AStr (sanitise p)) :: lift cs). apply rel_set. exact R.
   - cbn [attributions spec_attributions]. f_equal; [eapply rel_accept; exact R | apply IH; exact R].
+  - cbn [attributions spec_attributions]. apply IH. exact R.
 Qed.
 
 Theorem run_is_spec : forall cap evs, run cap evs = spec_attributions cap [] evs.
@@ -520,10 +522,11 @@ Lemma attributions_app : forall acc pre r cid post,
   attributions acc r (pre ++ Accept cid :: post) =
   attributions acc r pre ++ acc (fold_left ev_step pre r) cid :: attributions acc (fold_left ev_step pre r) post.
 Proof.
-  intros acc pre. induction pre as [| [c p | c] pre IH]; intros r cid post.
+  intros acc pre. induction pre as [| [c p | c | k] pre IH]; intros r cid post.
   - reflexivity.
   - cbn [app attributions fold_left ev_step]. apply IH.
   - cbn [app attributions fold_left ev_step]. rewrite IH. reflexivity.
+  - cbn [app attributions fold_left ev_step]. apply IH.
 Qed.
 
 Theorem run_nth : forall cap pre cid post dflt,
@@ -536,12 +539,13 @@ Qed.
 Lemma carriers_rev_aux_in : forall pre cs c p,
   In (c, p) (carriers_rev_aux cs pre) -> In (c, p) cs \/ In (Carrier c p) pre.
 Proof.
-  induction pre as [| [c0 p0 | c0] pre IH]; intros cs c p H; cbn [carriers_rev_aux] in H.
+  induction pre as [| [c0 p0 | c0 | k0] pre IH]; intros cs c p H; cbn [carriers_rev_aux] in H.
   - left. exact H.
   - apply IH in H. destruct H as [[E | H] | H].
     + inversion E; subst. right. left. reflexivity.
     + left. exact H.
     + right. right. exact H.
+  - apply IH in H. destruct H as [H | H]; [left; exact H | right; right; exact H].
   - apply IH in H. destruct H as [H | H]; [left; exact H | right; right; exact H].
 Qed.
 
@@ -566,6 +570,68 @@ Theorem useraddr_defined : forall cap pre cid, exists s, useraddr (accept (state
 Proof.
   intros cap pre cid. rewrite attribution_spec. unfold spec_attr.
   destruct (assoc param cid (firstn cap (carriers_rev pre))); eexists; reflexivity.
+Qed.
+
+(* ---------- every connection of a session carries the address looked up when the session was
+   established, whatever carriers / evictions / other sessions come later ---------- *)
+
+Lemma conns_in_sessions : forall acc evs r sess k a,
+  In (k, a) (conns acc r sess evs) -> nth_error (sess ++ attributions acc r evs) k = Some a.
+Proof.
+  intros acc evs. induction evs as [| [cid p | cid | j] evs IH]; intros r sess k a H.
+  - destruct H.
+  - cbn [conns attributions] in *. apply IH. exact H.
+  - cbn [conns attributions] in *. destruct H as [E | H].
+    + inversion E; subst. rewrite nth_error_app2 by lia. rewrite Nat.sub_diag. reflexivity.
+    + apply IH in H. rewrite <- app_assoc in H. exact H.
+  - cbn [conns attributions] in *. destruct (nth_error sess j) as [a0 |] eqn:E.
+    + destruct H as [E' | H]; [| apply IH; exact H].
+      inversion E'; subst. rewrite nth_error_app1; [exact E |].
+      apply nth_error_Some. rewrite E. discriminate.
+    + apply IH. exact H.
+Qed.
+
+Theorem conns_session_fixed : forall cap evs k a,
+  In (k, a) (run_conns cap evs) -> nth_error (run cap evs) k = Some a.
+Proof. intros cap evs k a H. unfold run_conns in H. apply conns_in_sessions in H. exact H. Qed.
+
+Theorem conns_address_of_establishment : forall cap pre cid post a,
+  In (length (run cap pre), a) (run_conns cap (pre ++ Accept cid :: post)) ->
+  a = accept (state_after cap pre) cid /\ a = spec_attr cap (carriers_rev pre) cid.
+Proof.
+  intros cap pre cid post a H. apply conns_session_fixed in H.
+  unfold run in H. rewrite attributions_app in H.
+  rewrite nth_error_app2 in H by lia. rewrite Nat.sub_diag in H. cbn [nth_error] in H.
+  inversion H. split; [reflexivity | apply attribution_spec].
+Qed.
+
+(* the connections are exactly: one per Accept, one per Stream naming an established session *)
+Lemma conns_app : forall acc pre r sess post,
+  conns acc r sess (pre ++ post) =
+  conns acc r sess pre ++ conns acc (fold_left ev_step pre r) (sess ++ attributions acc r pre) post.
+Proof.
+  intros acc pre. induction pre as [| [cid p | cid | j] pre IH]; intros r sess post.
+  - cbn [app conns attributions fold_left]. rewrite app_nil_r. reflexivity.
+  - cbn [app conns attributions fold_left ev_step]. apply IH.
+  - cbn [app conns attributions fold_left ev_step]. rewrite IH. rewrite <- app_assoc. reflexivity.
+  - cbn [app conns attributions fold_left ev_step]. destruct (nth_error sess j); rewrite IH; reflexivity.
+Qed.
+
+Theorem conns_first_stream : forall cap pre cid post,
+  In (length (run cap pre), accept (state_after cap pre) cid) (run_conns cap (pre ++ Accept cid :: post)).
+Proof.
+  intros cap pre cid post. unfold run_conns. rewrite conns_app. apply in_or_app. right.
+  cbn [conns app]. left. reflexivity.
+Qed.
+
+Theorem conns_later_stream : forall cap pre post k,
+  k < length (run cap pre) ->
+  exists a, nth_error (run cap pre) k = Some a /\ In (k, a) (run_conns cap (pre ++ Stream k :: post)).
+Proof.
+  intros cap pre post k Hk. destruct (nth_error (run cap pre) k) as [a |] eqn:E.
+  - exists a. split; [reflexivity |]. unfold run_conns. rewrite conns_app. apply in_or_app. right.
+    cbn [conns app]. unfold run in E. rewrite E. left. reflexivity.
+  - apply nth_error_None in E. lia.
 Qed.
 
 (* ---------- the pinned acceptStreams: a ClientID that a carrier did present, but that cap later
